@@ -34,7 +34,9 @@ Record tarball := {
   t_to : ver;
   t_prev : prevspec;
   t_sig_ok : bool;        (* detached signature verifies under the trusted key *)
-  t_members_ok : bool;    (* every member is a regular file / directory with a safe name, manifest parses *)
+  t_members_ok : bool;    (* extraction succeeded: every member is a regular file / directory with a safe name, the
+                             manifest parses, and the extractor did not object to anything else it may object to
+                             (a repeated member name: either verdict is admissible, the driver takes /repo's) *)
   t_digest_ok : bool;     (* every artifact's member exists and hashes to the manifest digest *)
   t_hook_ok : bool;       (* no pre hook, or (not generated) one that runs and exits 0 *)
   t_arts : list artifact }.
